@@ -36,13 +36,14 @@ IGNORES = {
 class Opts(object):
     def __init__(self, terms='tok', max_rules=4, shaping=False, priorities=False, acyclic=False, templates=False,
                  ignore=True, term_prio=False, max_alts=3, max_items=3, depth=2, big_rep=False, anon_re=False,
-                 underscore_terms=None, ignore_kinds=None, nonnull=False, unit_bias=False, tok_sets=None, distinct_anon=False, unique_aliases=False, re_safe=False, ignore_in_rules=False):
+                 underscore_terms=None, ignore_kinds=None, nonnull=False, unit_bias=False, tok_sets=None, distinct_anon=False, unique_aliases=False, re_safe=False, ignore_in_rules=False, lit_tmpl_args=False):
         self.terms = terms; self.max_rules = max_rules; self.shaping = shaping; self.priorities = priorities
         self.acyclic = acyclic; self.templates = templates; self.ignore = ignore; self.term_prio = term_prio
         self.max_alts = max_alts; self.max_items = max_items; self.depth = depth; self.big_rep = big_rep
         self.anon_re = anon_re
         self.underscore_terms = shaping if underscore_terms is None else underscore_terms
         self.ignore_kinds = ignore_kinds
+        self.lit_tmpl_args = lit_tmpl_args        # anonymous literals as template arguments (only in calling rules without '!')
         self.ignore_in_rules = ignore_in_rules      # an %ignore'd terminal may also be referenced by a rule (mandatory-whitespace idiom)
         self.tok_sets = tok_sets
         self.re_safe = re_safe     # only regexps whose every match length is found by lark's dynamic_complete truncation (no unsorted alternation)
@@ -123,6 +124,15 @@ def grammars(draw, o):
         # template depends on the calling rule's '!' in lark and the documentation is silent about it
         return ['t', tnames[draw(st.integers(0, len(pats) - 1))]]
 
+    def tmpl_arg():
+        if o.lit_tmpl_args and draw(st.booleans()):
+            if o.distinct_anon:
+                if spare: return ['lit', spare[draw(st.integers(0, len(spare) - 1))], '']
+            else:
+                t = terms[draw(st.integers(0, len(pats) - 1))]
+                if t['pat']['kind'] == 'str': return ['lit', t['pat']['value'], '']
+        return named_term_item()
+
     def term_item():
         if o.distinct_anon:
             if spare and o.shaping and draw(st.integers(0, 3)) == 0:
@@ -188,7 +198,7 @@ def grammars(draw, o):
         if c < 68:
             if tmpl and not params:
                 nparams = 1 if tmpl_params is None else len(tmpl_params)
-                return ['tmpl', tmpl, [named_term_item() for _ in range(nparams)]]
+                return ['tmpl', tmpl, [tmpl_arg() for _ in range(nparams)]]
             return term_item()
         if c < 75:
             return ['grp', [seq(allowed, depth - 1, params) for _ in range(draw(st.integers(1, 3)))]]
@@ -269,6 +279,9 @@ def grammars(draw, o):
         prio = None
         if o.priorities and draw(st.integers(0, 1)) == 0:
             prio = draw(st.sampled_from([-3, -2, -1, 1, 2, 3]))
+        if '!' in mod and o.lit_tmpl_args:
+            # whether a literal written in a '!' rule stays kept inside a plain template is not documented: such calls get named terminals
+            for a in alts: a['items'] = _named_tmpl_args(a['items'], tnames[0])
         rules.append({'name': nm, 'mod': mod, 'prio': prio, 'params': [], 'alts': alts})
     # reachability: every rule is referenced from a lower-ranked reachable rule
     for i in range(1, len(names)):
@@ -306,7 +319,7 @@ def grammars(draw, o):
             a = alts[draw(st.integers(0, len(alts) - 1))]
             a['items'].insert(draw(st.integers(0, len(a['items']))), ['tmpl', tq, [['p', tmpl_params[draw(st.integers(0, len(tmpl_params) - 1))]]]])
         if not _uses_tmpl(rules):
-            rules[0]['alts'].append({'items': [['tmpl', tmpl, [named_term_item() for _ in tmpl_params]]], 'alias': None})
+            rules[0]['alts'].append({'items': [['tmpl', tmpl, [(tmpl_arg() if '!' not in rules[0]['mod'] else named_term_item()) for _ in tmpl_params]]], 'alias': None})
     return {'rules': rules, 'terms': terms, 'ignore': ignore}
 
 
@@ -377,6 +390,18 @@ def _reached(rules):
         for a in by[n]['alts']:
             for i in a['items']: refs(i, stack)
     return seen
+
+
+def _named_tmpl_args(items, name):
+    out = []
+    for i in items:
+        k = i[0]
+        if k == 'tmpl': out.append(['tmpl', i[1], [a if a[0] != 'lit' else ['t', name] for a in i[2]]])
+        elif k in ('grp', 'maybe'): out.append([k, [_named_tmpl_args(a, name) for a in i[1]]])
+        elif k in ('opt', 'star', 'plus'): out.append([k, _named_tmpl_args([i[1]], name)[0]])
+        elif k == 'rep': out.append(['rep', _named_tmpl_args([i[1]], name)[0], i[2], i[3]])
+        else: out.append(i)
+    return out
 
 
 def _uses_tmpl(rules):
